@@ -449,6 +449,26 @@ theorem zero_out_of_bounds_spec (r : Record) :
     have : j < r.length := by omega
     simp [this]
 
+/-! ## translation invariance in record time (why the tie may run at nanosecond-epoch times) -/
+
+/-- **The hit finder commutes with a shift of all record times**: the record loop on the shifted records, started with
+the carried `max_time` shifted as well, fails the same way or returns the same hits with `time` and `max_time` shifted by
+`T` and every other field identical.  (`find_hits` itself starts `max_time` at 0 in both cases; that only shows in the
+stale `max_time` of hits whose largest sample is ≤ 0 — the open finding.) -/
+theorem find_hits_time_shift (T : Int) (a h : List Q) (rs : List Record) (ri : Nat) (mt : Int) :
+    findHitsLoop a h (rs.map (Record.shift T)) ri (mt + T) =
+      match findHitsLoop a h rs ri mt with
+      | .ok hs => .ok (hs.map (Hit.shift T))
+      | .error e => .error e :=
+  findHitsLoop_shift T a h rs ri mt
+
+/-- **`record_links` does not depend on the origin of the time axis** on well-formed pulse arrays (more generally:
+whenever every continuing fragment is preceded by a record of its channel, `recordLinks_shift`).  Outside that domain
+the initial `expected_next_start = 0` is the one absolute time the code compares with. -/
+theorem record_links_time_shift (T : Int) (rs : List Record) (hwf : wellFormedPulses rs = true) :
+    recordLinks (rs.map (Record.shift T)) = recordLinks rs :=
+  recordLinks_shift T rs (wf_noOrphans hwf)
+
 /-! ## non-vacuity: the hypotheses hold on concrete, non-trivial inputs -/
 
 /-- two fragments of one pulse in channel 0 (hit straddling the boundary) and a pulse in channel 1 -/
@@ -489,6 +509,11 @@ example : wellFormedPulses demo = true ∧ wellFormedPulses orphanWitness = fals
 example : (match baseline demo 2 true false 0 with
            | .ok out => out.map (fun o => (o.1.baseline, o.1.data))
            | .error _ => []) = [(⟨3, 2⟩, [1, -2, 1, -1]), (⟨5, 2⟩, [1, -2, -2, 0]), (⟨3, 2⟩, [-1, 1, 1, 0])] := by decide
+
+/-- the shift used by the harness, on `demo`: same intervals, hit times moved by `T0` -/
+example : (match findHits (demo.map (Record.shift 1700000000000000137)) (.perCh [⟨2, 1⟩, ⟨1, 1⟩]) (.scalar ⟨3, 2⟩) with
+           | .ok hs => hs.map (fun h => (h.recordI, h.left, h.right, h.time - 1700000000000000137))
+           | .error _ => []) = [(0, 1, 2, 12), (0, 3, 4, 16), (1, 1, 3, 12), (2, 0, 1, 18)] := by decide
 
 /-- the reduction of `demo` returns, and keeps the sample before the straddling hit and the one after it -/
 example : (match cutOutsideHits demo [⟨0, 3, 4⟩, ⟨2, 0, 1⟩] 1 1 with
